@@ -443,8 +443,24 @@ func genL2(r *rng.R, g *qgen.G, seeds []string) (*l2Case, bool) {
 			c.Note = append(c.Note, "arg-extra")
 		case 2:
 			if len(c.Args) > 0 {
-				c.Args = append(c.Args, c.Args[r.Intn(len(c.Args))])
-				c.Note = append(c.Note, "arg-duplicate")
+				a := c.Args[r.Intn(len(c.Args))]
+				if a != nil && r.Chance(1, 2) {
+					// the second occurrence in pointer form, holding other values: still the
+					// same type twice (whichever value won, one would be lost)
+					t := reflect.TypeOf(a)
+					if t.Kind() == reflect.Pointer {
+						t = t.Elem()
+					}
+					f := &desc.Filler{R: r.Fork(), Keys: []string{"k", "id", "name"}}
+					f.N = r.Intn(1000) * 100
+					p := reflect.New(t)
+					p.Elem().Set(f.Fill(t, 0))
+					c.Args = append(c.Args, p.Interface())
+					c.Note = append(c.Note, "arg-duplicate-pointer")
+				} else {
+					c.Args = append(c.Args, a)
+					c.Note = append(c.Note, "arg-duplicate")
+				}
 			}
 		case 3:
 			if len(c.Args) > 0 {
@@ -1345,6 +1361,9 @@ func runL2(args []string) {
 					detail = fmt.Sprintf("a Statement that had been run once %s gave a different result than a fresh Statement: %v vs %v", what, r4.obs(), res.obs())
 					if r4.bindOk && !res.bindOk {
 						afterAccepts = detail
+					}
+					if r4.sql != res.sql && r4.mode != "none" && res.mode != "none" {
+						sqlChanged = detail
 					}
 				}
 				if sw := swapLengths(cr, c.Args); sw != nil && res.bindOk {
